@@ -257,11 +257,8 @@ fn check_graph(scratch: &Path, g: &G, selections: &[Vec<usize>], tag: &str) -> G
         (Ok(_), Some(d)) => {
             res.fail = Some((Fail::new("C13:dangling-dependency-not-an-error", format!("node {d} depends on an unknown buildpack but graph construction succeeded")), g_json(g, &[])));
         }
-        (Err(e), Some(_)) => {
-            let msg = e.to_string();
-            if !msg.contains("unknown dependency") {
-                res.fail = Some((Fail::new("C13:dangling-dependency-wrong-error", msg), g_json(g, &[])));
-            }
+        (Err(_), Some(_)) => {
+            // any error will do: the property asks for "an error rather than being dropped", not for a wording
         }
         (Err(e), None) => {
             res.fail = Some((Fail::new("C13:graph-construction-failed", e.to_string()), g_json(g, &[])));
